@@ -136,32 +136,47 @@ def display_order(rep, prog):
     key = "<Version as std::fmt::Display>::fmt"
     names = prog.field_names("Version")
     NUM = prog.variant_index("Identifier", "Numeric")
-    for npre, nbuild in ((0, 0), (1, 0), (2, 1), (0, 2)):
-        f = {}
-        for i, fn in enumerate(("major", "minor", "patch")):
-            f[fn] = tok(i)
-        f["pre_release"] = ListV([Adt("Identifier", NUM, (Tok("I", "pre%d" % i, 0, dom="p%d" % i),)) for i in range(npre)])
-        f["build"] = ListV([Adt("Identifier", NUM, (Tok("I", "build%d" % i, 0, dom="b%d" % i),)) for i in range(nbuild)])
-        v = Adt("Version", 0, [f[n] for n in names])
-        fm = Formatter()
-        it = Interp(prog, Policy())
-        try:
-            it.call_body(key, [Ptr(Cell(v)), Ptr(Cell(fm))])
-        except Inconclusive as e:
-            rep.inconc("%s: %s" % (rule, e.reason), e.where)
-            continue
-        rep.path((rule, path_sig(it)))
-        got = "".join(p[1] if p[0] == "lit" else "{%s}" % p[1].name for p in fm.out)
-        exp = "{arg0}.{arg1}.{arg2}"
-        for i in range(npre):
-            exp += ("-" if i == 0 else ".") + "{pre%d}" % i
-        for i in range(nbuild):
-            exp += ("+" if i == 0 else ".") + "{build%d}" % i
-        if got == exp:
-            rep.ok(rule)
-        else:
-            rep.fail(rule, "%s|%s|pre=%d,build=%d" % (key, rule, npre, nbuild), "prints %s, expected %s" % (got, exp))
-    rep.analysed_item("<Version as Display>::fmt interpreted on 4 list-length shapes")
+    ALPHA = prog.variant_index("Identifier", "AlphaNumeric")
+    from ..interp import explore
+
+    def ident(kind, nm, i):
+        if kind == "n":
+            return Adt("Identifier", NUM, (Tok("I", "%s%d" % (nm, i), 0, dom="%s%d" % (nm[0], i)),))
+        return Adt("Identifier", ALPHA, (Tok("T", "%s%d" % (nm, i), "x", dom="ident-str"),))
+    for pre_kinds, build_kinds in (("", ""), ("n", ""), ("a", ""), ("na", "n"), ("an", "a"), ("", "na")):
+        npre, nbuild = len(pre_kinds), len(build_kinds)
+
+        def run(cx, pre_kinds=pre_kinds, build_kinds=build_kinds):
+            f = {}
+            for i, fn in enumerate(("major", "minor", "patch")):
+                f[fn] = tok(i)
+            f["pre_release"] = ListV([ident(k, "pre", i) for i, k in enumerate(pre_kinds)])
+            f["build"] = ListV([ident(k, "build", i) for i, k in enumerate(build_kinds)])
+            v = Adt("Version", 0, [f[n] for n in names])
+            fm = Formatter()
+            it = Interp(prog, Policy(), ctx=cx)
+            try:
+                it.call_body(key, [Ptr(Cell(v)), Ptr(Cell(fm))])
+            except Inconclusive as e:
+                return ("inconclusive", e, it)
+            return ("ok", fm, it)
+        for cx, (st, fm, it) in explore(run, limit=64):
+            if st == "inconclusive":
+                rep.inconc("%s: %s" % (rule, fm.reason), fm.where)
+                continue
+            rep.path((rule, path_sig(it)))
+            got = "".join(p[1] if p[0] == "lit" else "{%s}" % p[1].name for p in fm.out)
+            exp = "{arg0}.{arg1}.{arg2}"
+            for i in range(npre):
+                exp += ("-" if i == 0 else ".") + "{pre%d}" % i
+            for i in range(nbuild):
+                exp += ("+" if i == 0 else ".") + "{build%d}" % i
+            if got == exp:
+                rep.ok(rule)
+            else:
+                rep.fail(rule, "%s|%s|pre=%s,build=%s" % (key, rule, pre_kinds or "-", build_kinds or "-"),
+                         "prints %s, expected %s%s" % (got, exp, " (for some identifier text)" if cx.decisions else ""))
+    rep.analysed_item("<Version as Display>::fmt interpreted on 6 identifier-list shapes (numeric and alphanumeric identifiers)")
 
 
 def parser_wiring(rep, prog, rule):
